@@ -290,15 +290,26 @@ def gen_td(r, tbl, depth, probe):
 
 
 def nullable_spec(t) -> bool:
-    """the serializer's notion of a nullable field type (only those get the `is not None` test under
-    omit_none): Any, None, Optional / Union with a direct None member -- not Literal[None]"""
+    """the serializer's notion of a nullable field type (CodeBuilder.is_field_nullable without the default clause):
+    Any, None, or a union with a direct None member (Optional[X], Union[int, None, str]; since /repo 906a805);
+    Literal[None] is not"""
     while t[0] == "newtype":
         t = t[1]
-    if t[0] in ("any", "none", "opt"):
+    if t[0] in ("any", "none"):
         return True
-    if t[0] == "union":
-        return any(m[0] in ("none", "any", "opt") or (m[0] == "union" and nullable_spec(m)) for m in t[1])
-    return False
+    if t[0] not in ("opt", "union"):
+        return False
+
+    def flat(u):
+        if u[0] == "opt":
+            return flat(u[1]) + [("none",)]
+        if u[0] == "union":
+            return [x for m in u[1] for x in flat(m)]
+        return [u]
+    ms = flat(t)
+    if all(m == ms[0] for m in ms):        # typing collapses Union[X, X] to X
+        return ms[0][0] in ("none", "any")
+    return ("none",) in ms
 
 
 def has_reset_collection(t, tbl, seen=None) -> bool:
@@ -779,11 +790,6 @@ def gen_value(r, t, tbl: Table, probe, depth=0):
             if f["default"] is not None and r.random() < 0.4:
                 continue        # take the default
             fv = gen_value(r, subst(f["type"], env), tbl, probe, depth + 1)
-            if fv == ("none",) and f["default"] is None and (d.get("cfg") or {}).get("omit_none") and not probe:
-                for _ in range(5):      # omit_none drops the key of a *required* field (known finding): probe mode only
-                    fv = gen_value(r, subst(f["type"], env), tbl, probe, depth + 1)
-                    if fv != ("none",):
-                        break
             fs.append((f["name"], fv))
         return ("obj", t[1], fs)
     if k == "nt":
